@@ -260,7 +260,7 @@ def run_case(case):
 CHECK = Check(
     P, 'exploration',
     rule=('Hypothesis-generated models with 1-3 parameters whose priors are uniform (bounded), normal (unbounded), normal-with-parent-location, '
-          'uniform-with-parent-location or normal-with-parent-SCALE (hierarchical, bounded), scalar or vector simulator output; n_samples 2-16 (thorough 25; part smc-large: '
+          'uniform-with-parent-location, normal-with-parent-SCALE (hierarchical, bounded) or a user-defined elfi.Distribution with rvs+pdf only (bounded, optionally with parent location), scalar or vector simulator output; n_samples 2-16 (thorough 25; part smc-large: '
           '257-316 particles), batch_size 1-15, 1-4 rounds given as non-increasing pilot-percentile thresholds or as quantile lists, an '
           'optional continued sample() call on the same sampler with 1-2 further thresholds. Non-trivial = >= 2 rounds with a bounded or '
           'hierarchical prior.'),
